@@ -664,10 +664,16 @@ func vc05Compress(b []byte) []vc05Seg {
 	var out []vc05Seg
 	var lit []byte
 	flush := func() {
-		if len(lit) > 0 {
-			out = append(out, vc05Seg{kind: 0, bs: append([]byte(nil), lit...)})
-			lit = nil
+		// literal runs are cut into pieces: coqc cannot parse one list literal of 100 000 elements
+		for len(lit) > 0 {
+			n := len(lit)
+			if n > 2000 {
+				n = 2000
+			}
+			out = append(out, vc05Seg{kind: 0, bs: append([]byte(nil), lit[:n]...)})
+			lit = lit[n:]
 		}
+		lit = nil
 	}
 	rec := func(j int) (uint64, uint64) {
 		return uint64(binary.LittleEndian.Uint16(b[j:])), binary.LittleEndian.Uint64(b[j+2:])
@@ -692,9 +698,9 @@ outer:
 		if i+40 <= len(b) {
 			p0, o0 := rec(i)
 			p1, o1 := rec(i + 10)
-			// only plain tables (prefix steps by 1, moderate offsets): a misaligned view of the table
+			// only plain tables (prefix strictly increasing by a constant, moderate offsets): a misaligned view of the table
 			// is an arithmetic progression too, but of huge numbers that are slow to re-encode in Coq
-			if p1 == p0+1 && o1 >= o0 && o1-o0 < 1<<32 && o0 < 1<<48 {
+			if p1 > p0 && o1 >= o0 && o1-o0 < 1<<32 && o0 < 1<<48 {
 				dp, d := p1-p0, o1-o0
 				n := 2
 				pp, po := p1, o1
@@ -769,6 +775,15 @@ func vc05CoqCase(spec *vc05Spec, res *vc05Result, fileBytes []byte) (string, err
 	if !bytes.Equal(vc05Expand(segs), fileBytes) {
 		return "", fmt.Errorf("VERIF-HARNESS-BUG: segment encoding of %s does not expand to the file bytes", spec.Name)
 	}
+	litBytes := 0
+	for _, sg := range segs {
+		if sg.kind == 0 {
+			litBytes += len(sg.bs)
+		}
+	}
+	if litBytes > 60000 {
+		return "", nil // too irregular to hand to coqc; the caller notes it
+	}
 	probes := make([]string, len(spec.Probes))
 	for i, s := range spec.Probes {
 		mm, rr := -1, -1
@@ -807,7 +822,17 @@ func vc05Absorb(rep *vh.Report, cases *vh.CasesFile, spec *vc05Spec, res *vc05Re
 		rep.Fail("setup-error", res.SetupErr, map[string]interface{}{"spec": spec.Name, "format": vc05Version()})
 	}
 	for _, f := range res.Fails {
-		rep.Fail(f.Sig, f.Detail, map[string]interface{}{"input": f.Input, "spec": spec.Name, "seed": vh.Seed(), "tier": vh.Tier()})
+		rp := map[string]interface{}{"input": f.Input, "spec": spec.Name, "seed": vh.Seed(), "tier": vh.Tier()}
+		if len(spec.Sigs) <= 64 {
+			// small runs: the whole input, in Put order
+			var all []string
+			for _, s := range spec.Sigs {
+				all = append(all, hex.EncodeToString(s[:]))
+			}
+			rp["added_signatures_in_put_order"] = all
+			rp["metadata_pairs"] = len(spec.Meta)
+		}
+		rep.Fail(f.Sig, f.Detail, rp)
 	}
 	if res.Sealed && res.SealSize != res.FileLen {
 		rep.Note("spec %s: Seal returned size %d but the file has %d bytes", spec.Name, res.SealSize, res.FileLen)
@@ -824,6 +849,11 @@ func vc05Absorb(rep *vh.Report, cases *vh.CasesFile, spec *vc05Spec, res *vc05Re
 		term, err := vc05CoqCase(spec, res, fileBytes)
 		if err != nil {
 			return err
+		}
+		if term == "" {
+			rep.Count("coq-case-skipped:file-not-compressible")
+			rep.Note("spec %s: the sealed file (%d bytes) has no compact segment encoding; not handed to the Coq model", spec.Name, res.FileLen)
+			return nil
 		}
 		cases.Add(term)
 		rep.Count("coq-cases:" + spec.Kind)
